@@ -234,8 +234,16 @@ def check_valid(sym: Symbol, s: str) -> Tuple[bool, Optional[str]]:
         return True, None
 
     base = 10 if sym.orig_type == INT else 16
+    applied = s
+    if sym.orig_type == HEX:
+        # A hex value is applied with "0x" put in front of it when it lacks that prefix (MenuConfigApp._apply_input).
+        # Validate the text that gets applied: "-5" would be applied as the malformed "0x-5", which
+        # Symbol.set_value() silently ignores.
+        applied = s.strip()
+        if not applied.startswith(("0x", "0X")):
+            applied = "0x" + applied
     try:
-        int(s, base)
+        int(applied, base)
     except ValueError:
         return False, f"'{s}' is a malformed {TYPE_TO_STR[sym.orig_type]} value"
 
